@@ -56,7 +56,7 @@ C_FUNCS = [
     ("individual", ["expand_main_columns", "expand_location", "expand_parents", "expand_metadata", "add_row_internal", "add_row"]),
 ) for f in fs + ["truncate", "clear", "get_row_unsafe", "get_row"]]
 LEMMAS = ["lemmas.induction:offsets_transitive", "lemmas.induction:rank_bounds_and_monotone",
-          "lemmas.induction:newoff_bounds_and_monotone"]
+          "lemmas.induction:newoff_bounds_and_monotone", "lemmas.induction:cum_nonnegative"]
 BOUNDED = [{"name": "list_model", "module": "standins.c13_listmodel", "timeout": 900, "asan": "thorough"}]
 UNVERIFIED = [              "edge tables created with TSK_TABLE_NO_METADATA (add_row contract covers the default variant)",
               "tsk_*_table_update_row, _takeset_columns, _copy; _keep_rows of the edge, site, migration, population and provenance tables; _extend/_append_columns/_set_columns of the tables other than nodes",
